@@ -25,7 +25,13 @@ THEOREMS = [NS + t for t in (
     'weights_move_with_positions',
     'key_spec',
     'sorted_stripes',
+)] + ['AbacusVerif.Widths.' + t for t in (
+    'key_cast_fits_int32',        # the value handed to np.int32 is in [0, 2^31) for positions in [0, Box], < 2^31 stripes
+    'key_fits_int32',
+    'key_fits_int16_of_small',    # 16 signed bits suffice exactly up to 32768 stripes ...
+    'key_overflows_int16',        # ... and not for 32769 (seeded change C17-c)
 )]
+LEAN_MODULES = ['AbacusVerif.Props.C17', 'AbacusVerif.Props.WidthsC17']
 DRIVER = 'drv_c17'
 RULE = ('seeded structured sweep of partition_parallel (compiled; py_func on a subset): N in {0,1,2,...,200} x nthread 1..16 '
         '(incl. > N) x npartition 1..40 x coord 0..2 x float32/float64 x weights present/absent x sort on/off x '
